@@ -86,4 +86,39 @@ func init() {
 		res, p := driveWriter(w, calls)
 		return outDrive(f, res, p)
 	})
+	// bwlshb <budget|-> <desc>* L <n> <sym-hex>*n X <m> <sym-hex>*m -- <calls...>
+	// the fixed table is builder.Build() taken before the X texts are added to the same builder
+	register("bwlshb", func(a []string) string {
+		if len(a) < 1 {
+			return "badinput"
+		}
+		bud, ok := parseBudget(a[0])
+		tb, cl, ok2 := splitDD(a[1:])
+		if !ok || !ok2 {
+			return "badinput"
+		}
+		c := &stCur{a: tb}
+		sts := c.shareds()
+		c.lit("L")
+		locals := c.xs()
+		c.lit("X")
+		extra := c.xs()
+		calls, ok3 := parseCalls(cl)
+		if !c.done() || !ok3 {
+			return "badinput"
+		}
+		bld := ion.NewSymbolTableBuilder(sts...)
+		for _, s := range locals {
+			bld.Add(s)
+		}
+		fixed := bld.Build()
+		for _, s := range extra {
+			bld.Add(s)
+		}
+		f := &failWriter{budget: bud}
+		w := ion.NewBinaryWriterLST(f, fixed)
+		res, p := driveWriter(w, calls)
+		_ = bld.Build()
+		return outDrive(f, res, p)
+	})
 }
